@@ -204,6 +204,8 @@ type c03Step struct {
 	enc  bool
 	code bool // a 4-byte transport error-code frame (m.Mid unused)
 	cval int32
+	raw  bool // r:<packet>: these bytes as the frame's content (a packet the client must refuse, of any refusal class)
+	data []byte
 	m    envMsg
 	pad  []byte
 	good bool
@@ -239,6 +241,11 @@ func c03ParseStep(t string) (st c03Step) {
 	case len(p) >= 3 && p[0] == "u":
 		st.good = true
 		st.m = envMsg{Mid: envU64(p[1]), Body: envTok(strings.Join(p[2:], ":"))}
+	case len(p) == 2 && p[0] == "r":
+		st.raw, st.good, st.data = true, true, envTok(p[1])
+		if len(st.data) < 8 {
+			return c03Step{}
+		}
 	case len(p) == 2 && p[0] == "c":
 		v, err := strconv.ParseInt(p[1], 10, 32)
 		if err != nil {
@@ -255,6 +262,8 @@ func c03StepPacket(key []byte, st c03Step) []byte {
 		b := make([]byte, 4)
 		binary.LittleEndian.PutUint32(b, uint32(st.cval))
 		return b
+	case st.raw:
+		return st.data
 	case st.enc:
 		return envSeal(8, key, st.m, st.pad)
 	}
@@ -446,6 +455,16 @@ func c03Par(workers, rounds int, seed uint64, maxLen int) string {
 				}
 				dir = "client to server"
 				ack := r.Bool()
+				if r.Intn(4) == 0 {
+					// a send of this client refused for want of a usable key (damaged session file, no key yet) right
+					// before the good one, while the other clients work: what it leaves behind must not reach anybody
+					bad := [][]byte{nil, {}, key[:100], key[:127]}[r.Intn(4)]
+					if _, err := (&messages.Encrypted{Msg: envLCG(r.Intn(maxLen%4096+64), r.U64()), MsgID: int64(want.Mid)}).Serialize(
+						envInformator{salt: int64(r.U64()), sid: int64(r.U64()), seq: int32(want.Seq), key: bad}, ack); err == nil {
+						fail(w, i, dir, n, fmt.Sprintf("sealing under an auth key of %d bytes was not refused", len(bad)))
+						return
+					}
+				}
 				pkt, err := (&messages.Encrypted{Msg: body, MsgID: int64(want.Mid)}).Serialize(
 					envInformator{salt: int64(salt), sid: int64(sid), seq: int32(want.Seq), key: key}, ack)
 				if err != nil {
@@ -613,6 +632,14 @@ func c03Judge(op []string, out string) string {
 				}
 				continue
 			}
+			if st.raw {
+				// bytes of the generator's choice: judged when they happen to be a conformant server's packet
+				m, no := envOpen(8, envTok(op[1]), st.data, true)
+				if no != "" {
+					continue // what the client answers to a packet that is not the server's is C04's subject
+				}
+				st.enc, st.m = true, m
+			}
 			conformant := st.m.Mid%4 == 1 || st.m.Mid%4 == 3
 			if st.enc && len(st.pad) >= 16 {
 				continue
@@ -698,11 +725,14 @@ func c03History(steps []string, i int) string {
 		n := 4 + len(c03StepPacket(make([]byte, 256), cur))
 		how = fmt.Sprintf("its %d-byte frame written by the peer in %d pieces, cut at %v, a short pause between them", n, len(c03Pieces(make([]byte, n), cur)), cur.cuts)
 	}
-	codes, broken := 0, 0
+	codes, broken, refusedRaw := 0, 0, 0
 	for j := 0; j < i; j++ {
 		p := c03ParseStep(steps[j])
 		if p.code {
 			codes++
+		}
+		if p.raw {
+			refusedRaw++
 		}
 		if p.each || len(p.cuts) > 0 {
 			broken++
@@ -714,12 +744,15 @@ func c03History(steps []string, i int) string {
 	if broken > 0 {
 		how += fmt.Sprintf("; %d of the frames before it written in pieces", broken)
 	}
+	if refusedRaw > 0 {
+		how += fmt.Sprintf("; %d of the frames before it packets the client had to refuse", refusedRaw)
+	}
 	if cur.code {
 		return how
 	}
 	for j := i - 1; j >= 0; j-- {
 		p := c03ParseStep(steps[j])
-		if p.code || p.m.Mid != cur.m.Mid {
+		if p.code || p.raw || p.m.Mid != cur.m.Mid {
 			continue
 		}
 		what := "the same msg_id, sealed anew,"
@@ -800,6 +833,11 @@ func c03EmitLen(g *G, l int, tag string) {
 
 func c03Gen(g *G) {
 	r := g.R
+	// (0) what a REFUSED operation leaves behind for the next accepted one: sequences of one process mixing refused
+	// and accepted operations of several clients, both sides of the envelope (c03mix.go). They run first: each line
+	// is a history of its own, so a failing line replays on its own — single operations that fail only because of
+	// what an earlier line left behind come after them
+	c03GenMix(g)
 	// (a) every residue of the body length mod 16 (= every padding amount) at several magnitudes,
 	// both directions, acknowledged and not
 	if g.Thorough() {
@@ -879,6 +917,8 @@ func c03Gen(g *G) {
 	// pause after each piece, several packets per connection; 4-byte transport error-code frames (-404, -429,
 	// other values) before, between and after the packets, in every order
 	c03GenStreams(g)
+	// (b2-r) refused packets of every refusal class on ONE transport, conformant packets after each of them (c03mix.go)
+	c03GenRefusedOnTransport(g)
 	// special keys; padding of 16 and more bytes (not conformant; model and code must still agree)
 	for _, k := range []string{"z256", "p256"} {
 		g.Emit(fmt.Sprintf("c03.seal %s 0 0 0 0 0 -", k), "seal-edge", "edge=key")
@@ -942,9 +982,6 @@ func c03Gen(g *G) {
 		b := c03SpecUnenc(c03ServerMid(g), r.Bytes(r.Intn(64)))
 		g.Emit("c03.udeser "+hexD(b), "unenc-deserialize")
 	}
-	// (e) what a REFUSED operation leaves behind for the next accepted one: sequences of one process mixing refused
-	// and accepted operations of several clients, both sides of the envelope (c03mix.go)
-	c03GenMix(g)
 }
 
 func c03EncStep(g *G, mid uint64) string {
@@ -1011,6 +1048,8 @@ func c03FrameLen(step string) int {
 	switch {
 	case st.code:
 		return 8
+	case st.raw:
+		return 4 + len(st.data)
 	case st.enc:
 		return 4 + 24 + 32 + len(st.m.Body) + len(st.pad)
 	}
